@@ -81,15 +81,25 @@ CHECKS = {
        "model/implementation differential on batch events + limit/FIFO/deadline monitor",
   ref="§5 Batcher"),
  "C11": dict(
-  text="Lean theorems C11_shared_adds_no_work (a call whose key is remembered - pending or inside the retention "
-       "window - queues nothing, creates no future and gets that future's outcome) and C11_fresh_adds_work; the "
-       "retention machine (forget at completion + retention_timeout) is tied to the real code by a virtual-time "
-       "differential over 1..3 keys with gaps around retention_timeout and completion times; monitor: no batch "
-       "carries a key twice, sharers get the original's outcome, a call after the window is computed afresh",
-  note=NOTE_COMMON + "Partial: 'no batch ever carries a key twice' as a machine invariant is not yet a theorem "
-       "(monitor + differential). call_later exactness assumed.",
-  tech="Lean 4 proof (step theorems on the retention table) + virtual-time differential + sharing monitor",
-  ref="§5 Batcher"),
+  text="Lean theorems about the whole batcher machine, for EVERY fresh batcher (any configuration, retention timeout, "
+       "plan of the batch function) and every list of timed inputs (calls with shared / repeated / re-requested keys, "
+       "cancellations of any caller at any instant, max_batch_size mutations), after every prefix and after draining: "
+       "C11_no_duplicate_key(_prefix) (every batch announced to the batch function carries pairwise distinct keys), "
+       "C11_pending_work_distinct (work not yet handed over has pairwise distinct keys, each remembered with its own "
+       "pending future), from the 14-clause machine invariant R (Batcher/NoDup.lean: a key is put to work only while "
+       "it is not remembered; it stays remembered, mapped to the very future that stands for that work, until the "
+       "future is resolved; eviction timers only concern keys whose remembered future is resolved); plus the step "
+       "theorems C11_shared_adds_no_work (a call whose key is remembered queues nothing, creates no future and gets "
+       "that future's outcome) and C11_fresh_adds_work. The retention machine is tied to the real code by a "
+       "virtual-time differential over 1..3 keys with gaps around retention_timeout and completion times, and by "
+       "chained re-requests issued in the very step of the answer; monitor: no batch carries a key twice, sharers get "
+       "the original's outcome, a call after the window is computed afresh, nothing is remembered with retention 0",
+  note=NOTE_COMMON + "Partial: 'sharers receive the same outcome as the original' and 'fresh after the window' are "
+       "step theorems + differential + monitor, not run-level theorems; re-requests in the step of the answer are exact "
+       "ties for the timed model and are judged by the monitor only. call_later exactness assumed.",
+  tech="Lean 4 proof (inductive invariant of the retention / pipeline / timer bookkeeping over all input programs + "
+       "step theorems) + virtual-time differential + sharing monitor",
+  ref="§7 Batcher"),
  "C15": dict(
   text="Tie B: lean/AiutiVerif/Generated/Decorators.lean is regenerated from /repo/aiuti/asyncio.py (ast translator) "
        "on every run and C15_options_forwarded / C15_documented_options are `decide`d over it, so an option dropped "
